@@ -225,3 +225,49 @@ package core
 //@   trusted
 //@   modifies nothing
 //@   ensures err == nil ==> ref(y) == nil || fresh(y)
+
+// ---- compilation ----
+
+//@ iface core.Interpreters.Find(recv, name) returns (interp)
+//@   modifies nothing
+
+//@ iface core.Interpreter.Compile(recv, ctx, code) returns (x, err)
+//@   modifies nothing
+
+// A pattern parser supplied with the spec (DefaultPatternParser by default): assumed pure.
+//@ sig core.PatternParser(syntax, p) returns (x, err)
+//@   modifies nothing
+
+//@ globalinv DefaultInterpreters: DefaultInterpreters != nil
+//@ globalinv InterpreterNotFound: InterpreterNotFound != nil
+//@ globalinv defaultErrorNode: defaultErrorNode != nil
+//@ globalinv DefaultPatternParser: DefaultPatternParser != nil
+
+//@ func (*ActionSource).Compile returns action, err
+//@   safety C07
+//@   requires a != nil
+//@   modifies nothing
+//@   ensures[C13] compiledornot: err == nil ==> action != nil
+
+//@ func (*Spec).ParsePatterns returns err
+//@   safety C07
+//@   calls spec.PatternParser as sig:core.PatternParser
+//@   requires spec != nil
+//@   ensures err == nil ==> spec.PatternParser != nil
+//@   ensures spec.Nodes == old(spec.Nodes) && spec.ErrorNode == old(spec.ErrorNode) && spec.NoAutoErrorNode == old(spec.NoAutoErrorNode) && spec.BootSource == old(spec.BootSource) && spec.ToobSource == old(spec.ToobSource)
+
+// typeOK: a branching type after compilation.
+//@ spec typeOK(b) = b != nil ==> b.Type == "message" || b.Type == "bindings"
+
+//@ func (*Spec).Compile returns err
+//@   safety C07
+//@   calls spec.PatternParser as sig:core.PatternParser
+//@   requires spec != nil
+//@   ensures[C13] compiled: err == nil ==> spec.compiled
+//@   ensures[C07,C13] wf: err == nil ==> wfSpec(spec)
+//@   ensures[C13] types: err == nil ==> forall k string :: (k in spec.Nodes) ==> typeOK(spec.Nodes[k].Branches)
+//@   ensures[C13] actions: err == nil ==> forall k string :: (k in spec.Nodes) && spec.Nodes[k].ActionSource != nil ==> spec.Nodes[k].Action != nil
+//@   loop 0 invariant spec.Nodes != nil && spec.PatternParser != nil
+//@   loop 0 invariant[C07,C13] seenwf: forall k string :: seen(0)[k] ==> (k in spec.Nodes) && spec.Nodes[k] != nil && wfBranches(spec.Nodes[k].Branches) && typeOK(spec.Nodes[k].Branches) && (spec.Nodes[k].ActionSource != nil ==> spec.Nodes[k].Action != nil)
+//@   loop 1 invariant spec.Nodes != nil && spec.PatternParser != nil && n != nil && n.Branches != nil
+//@   loop 1 invariant[C07,C13] prefix: forall j int :: 0 <= j && j <= rangeindex ==> n.Branches.Branches[j] != nil
